@@ -213,9 +213,9 @@ Lemma disciplined_cons ok o r :
   disciplined ok (o :: r) = ok_op ok o && disciplined (match o with SetFdShortage b => negb b | _ => ok end) r.
 Proof. destruct o; cbn; try reflexivity. Qed.
 
-Lemma run_J ops : forall w, Inv w -> J w -> disciplined (fd_ok w) ops = true -> J (run w ops) /\ fd_ok (run w ops) = fd_ok (run w ops).
+Lemma run_J ops : forall w, Inv w -> J w -> disciplined (fd_ok w) ops = true -> J (run w ops).
 Proof.
-  induction ops as [|o r IH]; intros w I Jw D; [cbn; auto|].
+  induction ops as [|o r IH]; intros w I Jw D; [exact Jw|].
   rewrite disciplined_cons in D. apply andb_prop in D. destruct D as (OK & D).
   cbn [run fold_left]. apply IH.
   - apply step_inv, I.
